@@ -9,6 +9,7 @@ import (
 	"time"
 
 	"github.com/lni/dragonboat/v4"
+	"google.golang.org/grpc"
 )
 
 func Symbolic() bool                  { return true }
@@ -56,3 +57,13 @@ func Instant() time.Time { return time.Time{} }
 // which every goroutine is blocked violates `label`.
 func Tick()                   {}
 func NoDeadlock(label string) {}
+
+// CtxWithBearer: an incoming-request context carrying (or not) a bearer token.
+func CtxWithBearer(token string, present bool) context.Context { return nil }
+
+// SetConfig sets a configuration value (viper).
+func SetConfig(key, value string) {}
+
+// RegistrationClosure returns the idx-th func(grpc.ServiceRegistrar) literal
+// of cmd.<fn> with opaque captured variables (engine only; nil natively).
+func RegistrationClosure(fn string, idx int) func(grpc.ServiceRegistrar) { return nil }
